@@ -220,3 +220,9 @@ claim('C45', 'other',
       'cluster.py that installs a fresh connection or pool into long-lived state (with close on the shut-down arm), consumer rule for every created connection '
       '(installed through the guarded installer, returned, or closed in finally/except), refusal facts at the gates that start new work',
       'lock regions + CFG dataflow with branch facts + who-may-write + consumer (must-close / must-hand-over) rule', _TB, 'DESIGN.md section 5 C45')
+
+claim('C46', 'other',
+      'static analysis: the fallback expressions of Session._create_response_future folded over a three-valued statement domain (unset / set-but-falsy / set) in both '
+      'configuration arms, identity-sentinel facts for timeout and fetch size, same-name source rule for profile attributes, argument-to-parameter binding of every '
+      'message constructor and of ResponseFuture against their signatures, single-definition rule, BoundStatement/Statement inheritance guards',
+      'finite-domain folding of guard expressions + call-signature binding + CFG branch facts', _TB, 'DESIGN.md section 5 C46')
